@@ -59,7 +59,7 @@ func checkThresholdBounds(c *Ctx, prop string, setP *ssa.Function) {
 	ff := factsOf(setP)
 	var store ssa.CallInstruction
 	for _, s := range CallsIn(setP, "db/diffdb.SetEncodable") {
-		if strings.Contains(T(s.Call.Common().Args[2]).String(), "complit") || strings.Contains(typeName(stripConv(s.Call.Common().Args[2]).Type()), "BFTParams") {
+		if strings.Contains(T(ArgK(s.Call, 2)).String(), "complit") || strings.Contains(typeName(stripConv(ArgK(s.Call, 2)).Type()), "BFTParams") {
 			store = s.Call
 		}
 	}
@@ -518,14 +518,14 @@ func runC02(c *Ctx) {
 		c.Require("C02.D2 update-order", FuncKey(bte)+": store after updates", p.Pos(bte.Pos()), "the updated votes are written after the last update step", lastStore != nil && prev != nil && instrDominates(prev, lastStore), "")
 		// insertion uses the module's window length
 		for _, s := range CallsIn(bte, "(*"+bftPkg+".BFTVotes).insertBlockBFTInfo") {
-			t := T(s.Call.Common().Args[2]).String()
+			t := T(ArgK(s.Call, 2)).String()
 			c.Require("C02.D2 window-is-3-rounds", FuncKey(bte)+" ⇒ insertBlockBFTInfo", p.InstrPos(s.Call), "the window is truncated to maxLengthBlock", t == "p0.maxLengthBlock", t)
 		}
 	}
 	// ---- D3 parameters stored at tip+1, looked up as latest <= height
 	if setP := c.Anchor("pkg/consensus/liskbft.(*API).SetBFTParameters"); setP != nil {
 		for _, s := range CallsIn(setP, "db/diffdb.SetEncodable") {
-			k := T(s.Call.Common().Args[1]).String()
+			k := T(ArgK(s.Call, 1)).String()
 			if strings.Contains(k, "FromUint32") {
 				c.Require("C02.D3 params-activate-next-height", FuncKey(setP), p.InstrPos(s.Call), "new parameters are stored under currentHeight+1", strings.Contains(k, " + 1)"), k)
 			}
